@@ -13,7 +13,7 @@
    Real time enters only as the Timeout event.  What a frame does (Notify i or Skip) is
    Model/PingFrame.v; its agreement with the RFC reading is in the frame theorems below. *)
 From PV Require Import Base.Prelude Model.Ping Model.PingTrace Model.PingFrame Model.PingScript Model.PingKnown.
-From PV Require Import Model.PingAbs Spec.PingSpec Proofs.PingRefine.
+From PV Require Import Model.PingAbs Spec.PingSpec Proofs.PingRefine Model.PingVDR.
 From PV Require Import Spec.PingRFC Proofs.Ping Proofs.PingIff Proofs.PingMore Proofs.PingFrame Proofs.PingBulk Proofs.PingTime.
 Open Scope N_scope.
 
@@ -359,3 +359,17 @@ Example C19_refine_nonvacuous :
             srun [] (abs_trace false init_go ex_history) = Some (absst s) /\ entries (absst s) = size s.
 Proof. exact refine_nonvacuous. Qed.
 Print Assumptions C19_refine_nonvacuous.
+
+(* ---------------------------------------------------------------------------------------- *)
+(* ValidateDefaultRouter (the library's own user of Ping and of the ping with the router's IP as
+   source): nil iff the client answered the plain ping and one of the at most two router-source pings;
+   it makes 1 ping when the first fails, 2 when the first two succeed, 3 otherwise. *)
+Theorem C19_vdr_nil_iff : forall r0 r1 r2,
+  fst (vdr r0 r1 r2) = VNil <-> r0 = RNil /\ (r1 = RNil \/ r2 = RNil).
+Proof. exact vdr_nil_iff. Qed.
+Print Assumptions C19_vdr_nil_iff.
+
+Theorem C19_vdr_pings : forall r0 r1 r2, (1 <= snd (vdr r0 r1 r2) <= 3)%nat /\
+  (snd (vdr r0 r1 r2) = 1%nat <-> r0 <> RNil) /\ (snd (vdr r0 r1 r2) = 2%nat <-> r0 = RNil /\ r1 = RNil).
+Proof. exact vdr_pings. Qed.
+Print Assumptions C19_vdr_pings.
